@@ -426,6 +426,46 @@ def r_setatomic(prog, R):
     r.require(n >= 10, "fewer than 10 public setters found")
 
 
+def r_duporder(prog, R):
+    r = R.rule("R-C16-DUPORDER", "ares_dup installs the application's socket functions (and their data) on the duplicate before it applies the server list: link-local servers "
+               "are validated through the duplicate's own interface functions; and the URI layer stores a host (with its zone id) exactly as given", floor=2,
+               analysis="must-precede (dominance) of the function-table copy before the server setter + mutator census on uri->host")
+    f = prog.func("ares_dup")
+    doms = f.dominators()
+    copies = [(b, i, el) for b, i, el in f.elements() if (el["k"] == "call" and el["e"].get("callee") in ("memcpy",) and el["e"].get("args") and "sock_funcs" in render(el["e"]["args"][0]))
+              or (el["k"] == "asg" and "sock_funcs" in render(el["e"]["l"]) and "legacy" not in render(el["e"]["l"]))]
+    setters = [(b, i, c) for b, i, c in f.calls() if (c.get("callee") or "").startswith("ares_set_servers")]
+    if r.require(bool(copies) and bool(setters), "ares_dup: socket function copy / server setter not found"):
+        for b, i, c in setters:
+            k = "ares_dup: socket functions copied before %s" % c["callee"]
+            ok = any((cb.id == b.id and ci < i) or (cb.id != b.id and cb.id in doms.get(b.id, ())) for cb, ci, _ in copies)
+            if ok:
+                r.ok(k, f.loc(c["ln"]))
+            else:
+                r.viol(k, f.name, f.loc(c["ln"]), "the server list is applied to the duplicate before the application's socket functions are: a link-local server on an interface only those functions know is validated with the system's if_nametoindex, fails, and is silently dropped from the duplicate")
+    # uri->host stored as given
+    n = 0
+    for g in sorted(prog.funcs.values(), key=lambda x: x.key):
+        if g.file != "src/lib/util/ares_uri.c":
+            continue
+        for b, i, c in g.calls():
+            for k2, a in enumerate(c.get("args", [])):
+                a2 = strip(a)
+                if a2 is None or a2.get("k") != "mem" or a2["f"] != "host":
+                    continue
+                cp = c.get("constp") or []
+                mutates = not (k2 < len(cp) and cp[k2])
+                if not mutates:
+                    continue
+                n += 1
+                key = "fn=%s writes uri->host only by copying" % g.name
+                if c.get("callee") in ("ares_strcpy", "snprintf", "memcpy", "ares_buf_tag_fetch_string", "ares_buf_hexstr"):
+                    r.ok(key, g.loc(c["ln"]), nontrivial=False)
+                else:
+                    r.viol(key, g.name, g.loc(c["ln"]), "%s() rewrites the stored host in place: an interface name (zone id) is case-sensitive, 'fe80::1%%Vlan7' becomes '%%vlan7', the interface is not found and the server is silently dropped when the rendered list is fed back (text round trip, ares_dup)" % c.get("callee"))
+    r.require(n >= 1, "no write of uri->host found in ares_uri.c")
+
+
 def r_exportorder(prog, R):
     r = R.rule("R-C16-EXPORTORDER", "whatever hands the server list back to the application (csv, address lists, saved options, and through them ares_dup) lists the servers in "
                "configuration order, not in the order of the health-sorted container", floor=3, analysis="comparator key order of channel->servers x walkers that export")
@@ -485,4 +525,5 @@ def run(prog, R, tier):
     r_copyall(prog, R)
     r_exportorder(prog, R)
     r_setatomic(prog, R)
+    r_duporder(prog, R)
     outinit.outinit_rule(prog, R, "R-C16-OUTINIT", only_types=("ares_sconfig_t", "ares_options", "apattern"), floor=2)
